@@ -230,33 +230,43 @@ def body(tier, seed, replay_file):
                 got = replay((case['grammar_name'], case['behaviour']))
             judge([got], ev, rep, tmp, 'replay')
             return rep.finish()
-        H, N = (3, 5) if tier == 'quick' else (4, 6)
-        res = C.tlc('Interactive', MC_CFG % dict(H=H, N=N, deep='TRUE', acc='FALSE', export='INVARIANT Export'), timeout=3000)
-        C.tlc_must_run(res, 'Interactive')
-        ev.add_tlc('Interactive H=%d N=%d (the code\'s copy discipline)' % (H, N), res, 'design')
-        if not res.ok:
-            raise C.MachineryFailure('Interactive: %s violated' % res.violated)
-        behaviours = [json.loads(x) for x in res.prints]
-        if len(behaviours) < 100:
-            raise C.MachineryFailure('only %d behaviours exported by TLC' % len(behaviours))
-        # model sensitivity: the shallow-copy designs must violate OwnHistory (otherwise the model says nothing)
+        # quick: every behaviour of H=3,N=5 is exported, 5,000 replayed; thorough: all 84k behaviours of H=4,N=5 and a 30k
+        # sample of the 402k of H=3,N=6 (H=4,N=6 exports millions of behaviours: 25 GB in the harness, killed by the OOM killer)
+        bounds = [(3, 5, C.scale(5000))] if tier == 'quick' else [(4, 5, None), (3, 6, C.scale(30000))]
         for deep, acc, nm in (('FALSE', 'FALSE', 'shallow copy()'), ('TRUE', 'TRUE', 'accepts() with callbacks')):
+            # model sensitivity: the shallow-copy designs must violate OwnHistory (otherwise the model says nothing)
             r2 = C.tlc('Interactive', MC_CFG % dict(H=2, N=3, deep=deep, acc=acc, export=''), timeout=600, workers=2)
             C.tlc_must_run(r2, 'Interactive ' + nm)
             ev.cov['binding_selftest']['model_rejects_' + nm.replace(' ', '_')] = bool(r2.violated)
             if not r2.violated:
                 raise C.MachineryFailure('Interactive.tla accepts a %s design: the model is vacuous' % nm)
-        pick = behaviours
-        if tier == 'quick' and len(pick) > C.scale(5000):
-            pick = rng.sample(pick, C.scale(5000))
-        jobs = [(g, b) for b in pick for g in GRAMMARS]
-        cases = C.pmap(replay, jobs)
-        ev.count('behaviours_exported_by_TLC', len(behaviours))
-        ev.count('behaviours_replayed', len(pick))
-        ev.count('replays', len(cases))
-        ev.count('fork_comparisons', sum(len(s['hs']) for c in cases for s in c['steps']))
-        ev.count('accepts_calls', sum(1 for c in cases for s in c['steps'] if s['o']['op'] == 'accepts'))
-        ev.count('feed_eof_vs_parse', sum(len(s['eof']) for c in cases for s in c['steps']))
+        ncases, sample = 0, None
+        for H, N, cap in bounds:
+            res = C.tlc('Interactive', MC_CFG % dict(H=H, N=N, deep='TRUE', acc='FALSE', export='INVARIANT Export'), timeout=3000)
+            C.tlc_must_run(res, 'Interactive')
+            ev.add_tlc('Interactive H=%d N=%d (the code\'s copy discipline)' % (H, N), res, 'design')
+            if not res.ok:
+                raise C.MachineryFailure('Interactive: %s violated' % res.violated)
+            pick = res.prints
+            res.prints = None
+            if len(pick) < 100:
+                raise C.MachineryFailure('only %d behaviours exported by TLC' % len(pick))
+            ev.count('behaviours_exported_by_TLC', len(pick))
+            if cap and len(pick) > cap:
+                pick = rng.sample(pick, cap)
+            ev.count('behaviours_replayed', len(pick))
+            for off in range(0, len(pick), 6000):
+                jobs = [(g, json.loads(b)) for b in pick[off:off + 6000] for g in GRAMMARS]
+                cases = C.pmap(replay, jobs)
+                ncases += len(cases)
+                ev.count('replays', len(cases))
+                ev.count('fork_comparisons', sum(len(s['hs']) for c in cases for s in c['steps']))
+                ev.count('accepts_calls', sum(1 for c in cases for s in c['steps'] if s['o']['op'] == 'accepts'))
+                ev.count('feed_eof_vs_parse', sum(len(s['eof']) for c in cases for s in c['steps']))
+                if sample is None:
+                    sample = {'grammar': cases[5]['grammar'], 'behaviour': cases[5]['behaviour'], 'last_step': cases[5]['steps'][-1]}
+                judge(cases, ev, rep, tmp, 'forks%d%d_%d' % (H, N, off))
+                del cases, jobs
         # resume_parse
         texts = set()
         for _ in range(C.scale(400 if tier == 'quick' else 4000)):
@@ -265,10 +275,9 @@ def body(tier, seed, replay_file):
         rcases = C.pmap(resume_case, rjobs)
         ev.count('resume_cases', len(rcases))
         ev.count('resume_cases_with_skips', sum(1 for c in rcases if c['behaviour']['skipped']))
-        ev.cov['traces_validated_against_impl'] = len(cases) + len(rcases)
-        ev.sample({'grammar': cases[5]['grammar'], 'behaviour': cases[5]['behaviour'], 'last_step': cases[5]['steps'][-1]})
+        ev.cov['traces_validated_against_impl'] = ncases + len(rcases)
+        ev.sample(sample)
         ev.sample({'resume': rcases[3]['behaviour'], 'grammar': rcases[3]['grammar']})
-        judge(cases, ev, rep, tmp, 'forks')
         judge(rcases, ev, rep, tmp, 'resume')
         ev.assumptions += ['fork state compared through a digest of (state stack, value stack with token positions and tree meta)',
                            'resume: the on_error hook skips every unexpected token; result compared with parse() of the text without them (types and values)']
